@@ -150,7 +150,8 @@ def run(eng: Engine, ck: Check):
     if len(reads) == 2:
         hdr, body = reads
         sz = expand_aliases(rm, hdr.args[0])
-        ok = 'HEADER_SIZE_OBFUSCATED if self.obfuscated else HEADER_SIZE_UNOBFUSCATED' in unparse(sz)
+        ok = pat.match(sz, pat.compile_pattern('HEADER_SIZE_OBFUSCATED if self.obfuscated else HEADER_SIZE_UNOBFUSCATED')[0]) is not None or \
+            pat.match(sz, pat.compile_pattern('HEADER_SIZE_UNOBFUSCATED if not self.obfuscated else HEADER_SIZE_OBFUSCATED')[0]) is not None
         ck.ob('R-C02-FRAME', rm, hdr, 'the header size is key + length for obfuscated connections, length otherwise', ok, unparse(sz), construct='header size')
         # body length derives from the decoded header only
         tgt = None
@@ -161,7 +162,8 @@ def run(eng: Engine, ck: Check):
         src = expand_aliases(rm, tgt.value.args[1], depth=1) if tgt is not None else None
         hdr_var = next((unparse(n.targets[0]) for n in walk_local(rm.node) if isinstance(n, ast.Assign) and n.value is parent(hdr)), None)
         ok = ok and src is not None and hdr_var is not None and mentions_name(src, hdr_var) and \
-            'obfuscation.decode' in unparse(src) and 'if self.obfuscated' in unparse(src)
+            (pat.match(src, pat.compile_pattern(f'obfuscation.decode({hdr_var}) if self.obfuscated else {hdr_var}')[0]) is not None or
+             pat.match(src, pat.compile_pattern(f'{hdr_var} if not self.obfuscated else obfuscation.decode({hdr_var})')[0]) is not None)
         ck.ob('R-C02-FRAME', rm, body, 'the body length is the uint32 decoded (de-obfuscated if needed) from the header just read, and nothing else', ok,
               f'body size `{unparse(body.args[0])}` <- `{unparse(tgt) if tgt is not None else "?"}`', construct='body length provenance')
         rets = [n for n in walk_local(rm.node) if isinstance(n, ast.Return)]
